@@ -42,6 +42,11 @@ inductive Q
   | cache (id : Nat)
   | warn (bit : Nat) (n : Int)
   | gate (n : Int)
+  | mtp (n : Int)
+  | clock (id : Nat) (n : Int)
+  | gateExp (n : Int) (mempool : Bool)
+  | init (cur : Nat) (n : Int)
+  | warnAll (n : Int)
 
 def parseQuery? (s : String) : Option Q :=
   let kind := s.take 1 |>.toString
@@ -51,11 +56,17 @@ def parseQuery? (s : String) : Option Q :=
     let n ← n.toInt?
     if kind == "v" then (if a == "" then some (.version n) else none)
     else if kind == "g" then (if a == "" then some (.gate n) else none)
+    else if kind == "m" then (if a == "" then some (.mtp n) else none)
+    else if kind == "G" then (if a == "" then some (.gateExp n false) else none)
+    else if kind == "M" then (if a == "" then some (.gateExp n true) else none)
+    else if kind == "W" then (if a == "" then some (.warnAll n) else none)
     else do
       let a ← a.toNat?
       if kind == "s" || kind == "d" then some (.state a n)
       else if kind == "a" then some (.active a n)
       else if kind == "w" then some (.warn a n)
+      else if kind == "h" then some (.clock a n)
+      else if kind == "I" then some (.init a n)
       else none
   | [a] => do
     let a ← a.toNat?
@@ -78,6 +89,7 @@ def ansStr (active : Bool) : Spec.Answer → String
   | .ver v => natToHex v
   | .unknownId => "err"
   | .panic => "panic"
+  | .flag w => if w then "warned" else "quiet"
 
 /-- One query: `Warn.runQ` (the model of the whole chain instance) runs and threads the caches. On
     well-formed histories the answer printed is the Spec's (`Warn.specAnswer`; they agree by
@@ -87,7 +99,7 @@ def ask (cx : Ctx) (q : Warn.Q) (active : Bool) : Ctx × String :=
   let (inst', a) := Warn.runQ cx.net cx.inst q
   let cx' := { cx with inst := inst' }
   if wf cx.net q.node then
-    let sa := Warn.specAnswer cx.net (cx.inst.cs.map (·.1)) q
+    let sa := (Warn.specStep cx.net (cx.inst.cs.map (·.1)) cx.inst.warned q).2
     (cx', if sa == a then ansStr active sa else "DIVERGE:" ++ ansStr active sa ++ "/" ++ ansStr active a)
   else (cx', ansStr active a)
 
@@ -112,6 +124,41 @@ def runQuery (cx : Ctx) (q : Q) : Ctx × String :=
     match nodeAt cx n with
     | some nd => ask cx (.dep (.state 2 nd.tail)) true
     | none => (cx, "bad-op")
+  | .gateExp n mempool =>
+    -- exported CalcSequenceLock with best tip n: mempool semantics are always on; block validation
+    -- semantics consult deploymentState(tip.parent, CSV)
+    if n < 0 then (cx, "bad-op") else
+    match nodeAt cx n with
+    | some nd => if mempool then (cx, "1") else ask cx (.dep (.state 2 nd.tail)) true
+    | none => (cx, "bad-op")
+  | .mtp n =>
+    -- BlockChain.PastMedianTime(header of n): needs the parent in the index
+    if n < 0 then (cx, "bad-op") else
+    match nodeAt cx n with
+    | some [_] => (cx, "err")
+    | some nd => (cx, toString (Spec.mtp nd))
+    | none => (cx, "bad-op")
+  | .clock id n =>
+    if n < 0 then (cx, "bad-op") else
+    match nodeAt cx n, cx.inst.cs[id]? with
+    | some nd, some (d, _) =>
+      let noParent := nd.length == 1
+      let a := if d.start.isNone then "1" else if noParent then "e"
+               else if Model.hasStarted d nd then "1" else "0"
+      let b := if d.timeout.isNone then "0" else if noParent then "e"
+               else if Model.hasEnded d nd then "1" else "0"
+      (cx, a ++ b)
+    | _, _ => (cx, "bad-op")
+  | .init cur n =>
+    if n < 0 then (cx, "bad-op") else
+    match nodeAt cx n with
+    | some nd => ask cx (.init nd (cur == 1)) false
+    | none => (cx, "bad-op")
+  | .warnAll n =>
+    if n < 0 then (cx, "bad-op") else
+    match nodeAt cx n with
+    | some nd => ask cx (.warnAll nd) false
+    | none => (cx, "bad-op")
   | .warn bit n =>
     match nodeAt cx n with
     | some nd => ask cx (.warn bit nd) false
@@ -130,18 +177,45 @@ def runAll (cx : Ctx) : List Q → List String → List String
     let (cx', s) := runQuery cx q
     runAll cx' qs (s :: acc)
 
+def stateName (n : Nat) : String :=
+  match n with
+  | 0 => "ThresholdDefined" | 1 => "ThresholdStarted" | 2 => "ThresholdLockedIn"
+  | 3 => "ThresholdActive" | 4 => "ThresholdFailed"
+  | n => "Unknown_ThresholdState_(" ++ toString n ++ ")"
+
+def handleQ (w t deps nodes queries : String) : String :=
+  match w.toNat?, t.toNat?, (deps.splitOn ";").mapM parseDep?,
+        parseNodes? (nodes.splitOn ","), (queries.splitOn ",").mapM parseQuery? with
+  | some w, some t, some ds, some ns, some qs =>
+    if ds.length ≠ 6 then "bad-op" else
+    let cx : Ctx := { net := ⟨w, t⟩, nodes := ns, inst := Warn.freshInst ds }
+    let outs := runAll cx qs []
+    if outs.contains "bad-op" then "bad-op"
+    else if outs.contains "panic" then "panic"   -- a Go panic aborts the whole line
+    else ",".intercalate outs
+  | _, _, _, _, _ => "bad-op"
+
 def handle : List String → String
-  | ["q", w, t, deps, nodes, queries] =>
-    match w.toNat?, t.toNat?, (deps.splitOn ";").mapM parseDep?,
-          parseNodes? (nodes.splitOn ","), (queries.splitOn ",").mapM parseQuery? with
-    | some w, some t, some ds, some ns, some qs =>
-      if ds.length ≠ 6 then "bad-op" else
-      let cx : Ctx := { net := ⟨w, t⟩, nodes := ns, inst := Warn.freshInst ds }
-      let outs := runAll cx qs []
-      if outs.contains "bad-op" then "bad-op"
-      else if outs.contains "panic" then "panic"   -- a Go panic aborts the whole line
-      else ",".intercalate outs
-    | _, _, _, _, _ => "bad-op"
+  | ["q", w, t, deps, nodes, queries] => handleQ w t deps nodes queries
+  | ["par", subs] =>
+    -- independent instances (run concurrently on the Go side): each answers as it would alone
+    "|".intercalate ((subs.splitOn "|").map fun sub =>
+      match sub.splitOn "/" with
+      | [w, t, deps, nodes, queries] => handleQ w t deps nodes queries
+      | _ => "bad-op")
+  | ["str", n] =>
+    match n.toNat? with
+    | some n => stateName (n % 256)
+    | none => "bad-op"
+  | ["eaa", a] =>
+    match a.toNat? with
+    | some a => toString (Spec.effAlwaysActive ⟨0, none, none, 0, 0, a % 4294967296⟩)
+    | none => "bad-op"
+  | ["clk", st, en, _] =>
+    -- never synchronised with a clock: ErrNoBlockClock comes before the zero-time shortcut
+    match optInt? st, optInt? en with
+    | some _, some _ => "noclock,noclock," ++ st ++ "," ++ en
+    | _, _ => "bad-op"
   | _ => "bad-op"
 
 end BV.C14.Driver
